@@ -48,6 +48,14 @@ CLAIMS = {
 }
 PENDING = {}
 
+COMMON = (" Bundles: every call from every state reachable within <=4 slots (generation-aware BFS; thorough <=4/GenCap 2 and <=5), from every ordered forest"
+          " up to 7 nodes built canonically (thorough 8), and from every forest up to 6 nodes after each possible remove / remove_subtree followed by recycling"
+          " all freed slots (thorough 7). Mechanism specifications (spec/mechanisms: Links, ArenaImpl, Stamp, FreeList, Walk, DEIter, IndentWriter, Readers) are"
+          " model-checked to refine the abstract specification.")
+for k in list(CLAIMS):
+    if k in ("C01", "C02", "C03", "C04", "C05", "C06", "C07", "C08", "C09", "C10", "C11", "C12", "C13", "C16"):
+        c = CLAIMS[k]
+        CLAIMS[k] = (c[0], c[1] + COMMON, c[2], c[3])
 checks, na = [], []
 for p in props:
     pid = p["id"]
